@@ -1,0 +1,10 @@
+//go:build verif
+
+package sign
+
+import "github.com/taurusgroup/multi-party-sig/pkg/hash"
+
+// VerifMessageHash returns m as the unexported messageHash type, the form in which the message enters the
+// FROST signing transcripts (round 2 binding factors, challenge, Signature.Verify), for the verification
+// harness (build tag verif; no behaviour added).
+func VerifMessageHash(m []byte) hash.WriterToWithDomain { return messageHash(m) }
